@@ -65,6 +65,13 @@ SPECS = {
 }
 
 
+# object-typed fields of non-value classes: the representation cases explored for each
+OBJ_FIELDS = {
+    "spif_tok_t_struct": {"src": ("spif_str_t_struct", ["alloc"]), "sep": ("spif_str_t_struct", ["null", "alloc"]),
+                          "tokens": (None, ["null"])},
+}
+
+
 def entry_states(fn, max_cases=8, alias=True):
     """cartesian product of representation cases of the value-class parameters"""
     states = [State()]
@@ -94,7 +101,20 @@ def entry_states(fn, max_cases=8, alias=True):
                 oid = fresh("O_" + p["n"] + "_")
                 st.objs[oid] = rec
                 st.env[p["d"]] = ("o", oid)
-                nxt.append(st)
+                cur = [st]
+                for fld, (frec, cases) in OBJ_FIELDS.get(rec, {}).items():
+                    nx2 = []
+                    for s0 in cur:
+                        for case in cases:
+                            s2 = s0.copy() if len(cases) > 1 else s0
+                            if case == "null":
+                                s2.heap[(oid, fld)] = NULLV
+                            else:
+                                s2.heap[(oid, fld)] = make_object(s2, frec, case, p["n"] + "_" + fld)
+                            s2.path.append("%s->%s:%s" % (p["n"], fld, case))
+                            nx2.append(s2)
+                    cur = nx2
+                nxt.extend(cur)
             elif p.get("tp") and p["n"] in SPECS.get(fn.name, {}):
                 spec = SPECS[fn.name][p["n"]]
                 if spec[0] == "cstr":
@@ -112,7 +132,8 @@ def entry_states(fn, max_cases=8, alias=True):
                 st.env[p["d"]] = P(rid, 0)
                 nxt.append(st)
             elif p.get("tp"):
-                base = t.replace("const ", "").replace("*", "").strip()
+                base = re.sub(r"\bconst\b|\bregister\b|\*", " ", t)
+                base = " ".join(base.split())
                 if base in ("char", "signed char", "unsigned char") and not re.search(r"(buff|buf|bytes|data|ptr)$", p["n"]) or p["n"] in ("other", "str", "s", "old", "fmt", "format", "delim", "needle", "haystack"):
                     if base in ("char", "signed char", "unsigned char"):
                         n = fresh(p["n"] + "_strlen")
